@@ -16,9 +16,11 @@ CACHE = os.path.join(vlib.BUILD, "c02cache")
 SYMEX_FUEL = 6000
 
 # (name, go file, tla file, pcal source for the *.gotests pairs, Bind module)
-def gotest(name, consts=()):
+def gotest(name, consts=(), **kw):
     d = "pgo/test/files/general/%s.tla" % name
-    return {"name": name, "go": "%s.gotests/%s.go" % (d, name), "tla": d, "pcal": d + ".expectpcal", "constants": list(consts)}
+    r = {"name": name, "go": "%s.gotests/%s.go" % (d, name), "tla": d, "pcal": d + ".expectpcal", "constants": list(consts)}
+    r.update(kw)
+    return r
 
 
 SYSTEMS = [
@@ -37,10 +39,56 @@ SYSTEMS = [
      "constants": [("NUM_NODES", "VNum 2"), ("BENCH_NUM_ROUNDS", "VNum 1")],
      "env_processes": ["UpdateGCntr"],          # plain PlusCal process (CRDT merge): no generated Go
      "unused_archetypes": ["ANodeBench"]},      # archetype not instantiated by the spec: no TLA+ action to compare with
+    {"name": "shopcart", "go": "systems/shopcart/shopcart.go", "tla": "systems/shopcart/shopcart.tla",
+     "constants": [("NumNodes", "VNum 2"), ("ElemSet", "VSet [VNum 0; VNum 1; VNum 2; VNum 3]"), ("BenchNumRounds", "VNum 2")],
+     "env_processes": ["UpdateCRDT"], "unused_archetypes": ["ANode"]},
+    {"name": "nestedcrdtimpl", "go": "systems/nestedcrdtimpl/NestedCRDTImpl.go", "tla": "systems/nestedcrdtimpl/NestedCRDTImpl.tla",
+     "constants": [], "env_processes": ["Node"], "unused_archetypes": ["ATestRig", "ATestBench"]},
+    {"name": "pbkvs", "go": "systems/pbkvs/pbkvs.go", "tla": "systems/pbkvs/pbkvs.tla",
+     "constants": [("NUM_REPLICAS", "VNum 2"), ("NUM_CLIENTS", "VNum 1"), ("EXPLORE_FAIL", "VBool true"), ("DEBUG", "VBool false")]},
+    {"name": "raftkvs", "go": "systems/raftkvs/raftkvs.go", "tla": "systems/raftkvs/raftkvs.tla",
+     "constants": [("ExploreFail", "VBool true"), ("Debug", "VBool false"), ("NumServers", "VNum 2"), ("NumClients", "VNum 1"),
+                   ("BufferSize", "VNum 2"), ("MaxTerm", "VNum 3"), ("MaxCommitIndex", "VNum 2"), ("MaxNodeFail", "VNum 1"),
+                   ("LogConcat", "VStr \"c\""), ("LogPop", "VStr \"p\""), ("LeaderTimeoutReset", "VBool true"),
+                   ("NumRequests", "VNum 2"), ("AllStrings", "VSet [VStr \"a\"; VStr \"b\"]")]},
+    {"name": "replicatedkv", "go": "systems/replicatedkv/replicated_kv.go", "tla": "systems/replicatedkv/replicated_kv.tla",
+     "constants": [("BUFFER_SIZE", "VNum 2"), ("NUM_REPLICAS", "VNum 2"), ("NUM_CLIENTS", "VNum 1"), ("DISCONNECT_MSG", "VNum 1"),
+                   ("GET_MSG", "VNum 2"), ("PUT_MSG", "VNum 3"), ("NULL_MSG", "VNum 4"), ("GET_RESPONSE", "VNum 5"),
+                   ("PUT_RESPONSE", "VNum 6"), ("NULL", "VNum 0"), ("GET_KEY", "VNum 10"), ("PUT_KEY", "VNum 11"),
+                   ("PUT_VALUE", "VNum 12")]},
     gotest("hello"),
     gotest("IndexingLocals"),
     gotest("NonDetExploration"),
+    gotest("bug2_124", [("NUM_NODES", "VNum 2"), ("BUFFER_SIZE", "VNum 2")]),
+    gotest("PBFail4_bug125", [("BUFFER_SIZE", "VNum 2"), ("NUM_REPLICAS", "VNum 2"), ("NUM_CLIENTS", "VNum 1"), ("EXPLORE_FAIL", "VBool true")]),
+    {"name": "bug_167", "go": "pgo/test/files/gogen/bug_167.tla.gotests/bug_167.go", "tla": "pgo/test/files/gogen/bug_167.tla",
+     "constants": [("NUM_REPLICAS", "VNum 2"), ("NUM_PUT_CLIENTS", "VNum 1"), ("NUM_GET_CLIENTS", "VNum 1"), ("EXPLORE_FAIL", "VBool true"),
+                   ("GET_CLIENT_RUN", "VBool true"), ("PUT_CLIENT_RUN", "VBool true")]},
 ]
+
+
+# shipped pairs for which there is NO artefact TLC could model-check: SANY rejects the TLA+ translation that the stock pcal
+# translator produces from the expected PlusCal. Re-verified in the thorough tier (a pair that becomes translatable is a break).
+EXCLUDED = [
+    dict(gotest("ExprTests"), reason="SANY: 'Multiply-defined symbol' (nested bound identifiers re-used in the fuzz-generated expressions); "
+                                     "its only archetype ANothing is not instantiated, so there is no label to compare either"),
+    dict(gotest("bug_119"), reason="SANY: 'Unknown operator: self' (procedure call from the single process Server = \"1\")"),
+    dict(gotest("ProcedureSpaghetti"), reason="SANY: 'Could not parse module' (duplicate labels / stale parameter names in the expected PlusCal)"),
+    {"name": "EmptyBlock", "go": "pgo/test/files/gogen/EmptyBlock.tla.gotests/EmptyBlock.go", "tla": "pgo/test/files/gogen/EmptyBlock.tla",
+     "reason": "no archetype, no label: nothing to compare"},
+]
+
+
+def check_excluded(sysd):
+    """True when the pair is (still) untranslatable for the stated reason"""
+    if sysd["name"] == "EmptyBlock":
+        txt = open(os.path.join(vlib.REPO, sysd["go"])).read()
+        return "MPCalCriticalSection{" not in txt
+    try:
+        translate_tla(sysd)
+    except RuntimeError:
+        return True
+    return False
 
 
 def sha(*parts):
